@@ -1673,7 +1673,7 @@ def GET_EYE(
     eye_dict["dt"] = dt = input.dt()
 
     # truncate
-    n = input.len() % (2 * sps)  # we obtain the rest %(2*sps)
+    n = input.len() % sps  # a partial slot at the end
     if n: # if rest is not zero
         input = input[:-n] # ignore last 'n' samples
                               
@@ -1685,6 +1685,10 @@ def GET_EYE(
         if input.noise is not None
         else input.signal.real
     ) # add noise to signal, if there is noise
+
+    if nslots % 2:  # odd number of slots: the eye folds two slots per trace, so the record is continued by its first slot (it is periodic: the devices are FFT based)
+        input = np.concatenate([input, input[:sps]])
+        nslots += 1
 
     input = np.roll(input, -sps // 2 + 1)  # roll (-sps/2) to focus the eye in center of figure
     y_set = np.unique(input) # take a set of signal values
